@@ -354,7 +354,7 @@ func init() {
 		t, u := c.Args[0].(*StructV), c.Args[1].(*StructV)
 		dd := term.Sub(t.F[1].(*term.Term), u.F[1].(*term.Term))
 		dn := term.Sub(t.F[0].(*term.Term), u.F[0].(*term.Term))
-		if sr, ok := c.St.facts().srangeOf(dd); ok && sr.lo >= -106751 && sr.hi <= 106751 && dn.IsConst() && dn.Val == 0 {
+		if sr, ok := c.St.facts().srangeLin(dd); ok && sr.lo >= -106751 && sr.hi <= 106751 && dn.IsConst() && dn.Val == 0 {
 			// whole days within time.Duration's range: no saturation, the plain product
 			return c.ret(term.Mul(dd, c64(nsPerDay)))
 		}
@@ -375,7 +375,7 @@ func init() {
 			for i := 0; i < 2; i++ {
 				k, x := d.Args[i], d.Args[1-i]
 				if k.IsConst() && k.SVal() > 0 && k.SVal()%hour == 0 {
-					if xr, ok := c.St.facts().srangeOf(x); ok {
+					if xr, ok := c.St.facts().srangeLin(x); ok {
 						_, o1 := mulOv(xr.lo, k.SVal())
 						_, o2 := mulOv(xr.hi, k.SVal())
 						if o1 && o2 {
